@@ -44,82 +44,27 @@ Proof.
   - apply Forall_app. split; [assumption|]. apply Forall_forall. intros y Hy. apply H; [left; reflexivity | exact Hy].
 Qed.
 
-Lemma sorted_map_num l : StronglySorted num_le l -> StronglySorted Z.le (map e_num l).
+Lemma sorted_map_num l : (forall x, In x l -> is_int x = true) -> StronglySorted int_num_le l -> StronglySorted Z.le (map e_num l).
 Proof.
-  induction 1 as [|x l S IH F]; cbn [map]; constructor; [exact IH|].
+  intros Hi. induction 1 as [|x l S IH F]; cbn [map]; constructor; [apply IH; intros; apply Hi; right; assumption|].
   apply Forall_forall. intros n Hn. apply in_map_iff in Hn. destruct Hn as (y & <- & Hy).
-  rewrite Forall_forall in F. exact (F y Hy).
+  rewrite Forall_forall in F. apply (F y Hy); apply Hi; [left; reflexivity | right; exact Hy].
 Qed.
 
-(* ---------------------------------------------------------------- what the buffers hold *)
-Lemma aget_in {V} (k : Z) (l : list (Z * V)) v : aget k l = Some v -> exists k', In (k', v) l.
-Proof.
-  induction l as [|[k' v'] t IH]; intros Hv; [discriminate|]. cbn [aget] in Hv.
-  destruct (k =? k'); [inversion Hv; subst; exists k'; left; reflexivity|].
-  destruct (IH Hv) as [k2 Hk2]. exists k2. right. exact Hk2.
-Qed.
-
-Lemma aset_in {V} (k : Z) (v : V) l k' v' : In (k', v') (aset k v l) -> v' = v \/ In (k', v') l.
-Proof.
-  induction l as [|[k0 v0] t IH]; cbn [aset].
-  - intros [H|[]]. inversion H; left; reflexivity.
-  - destruct (k =? k0).
-    + intros [H|H]; [inversion H; left; reflexivity | right; right; exact H].
-    + intros [H|H]; [right; left; exact H|]. destruct (IH H) as [ -> |H']; [left; reflexivity | right; right; exact H'].
-Qed.
-
-Lemma buf_get_in_all b f l x : In x (buf_get b f l) -> In x (all_buffered b).
-Proof.
-  unfold buf_get, dict_of, all_buffered. destruct (aget f b) as [d|] eqn:E1; [|intros []].
-  destruct (aget l d) as [q|] eqn:E2; [|intros []]. intros Hx.
-  destruct (aget_in _ _ _ E1) as [kf Hf]. destruct (aget_in _ _ _ E2) as [kl Hl].
-  apply in_flat_map. exists (kf, d). split; [exact Hf|]. cbn [snd]. apply in_flat_map. exists (kl, q). split; assumption.
-Qed.
-
-Lemma all_buffered_buf_set b f l q x : In x (all_buffered (buf_set b f l q)) -> In x q \/ In x (all_buffered b).
-Proof.
-  unfold all_buffered, buf_set. intros H. apply in_flat_map in H. destruct H as ([kf d] & Hd & Hx). cbn [snd] in Hx.
-  destruct (aset_in _ _ _ _ _ Hd) as [ -> |Hd'].
-  - apply in_flat_map in Hx. destruct Hx as ([kl q'] & Hq & Hx). cbn [snd] in Hx.
-    destruct (aset_in _ _ _ _ _ Hq) as [ -> |Hq']; [left; exact Hx|]. right.
-    unfold dict_of in Hq'. destruct (aget f b) as [d0|] eqn:E; [|destruct Hq'].
-    destruct (aget_in _ _ _ E) as [k0 H0]. apply in_flat_map. exists (k0, d0). split; [exact H0|].
-    cbn [snd]. apply in_flat_map. exists (kl, q'). split; assumption.
-  - right. apply in_flat_map. exists (kf, d). split; assumption.
-Qed.
-
-Lemma skipn_in {A} k (l : list A) x : In x (skipn k l) -> In x l.
-Proof. revert l. induction k as [|k IH]; intros l H; [exact H|]. destruct l; [destruct H|]. right. apply IH. exact H. Qed.
-
-Lemma add_event_bufs_in c sz b i e x : In x (all_buffered (x_bufs (add_event c sz b i e))) -> In x (all_buffered b) \/ x = e.
-Proof.
-  destruct (add_event_x_bufs c sz b i e) as (q' & -> & (k & ->) & _). intros H.
-  assert (G : In x (buf_get b (e_fac e) (e_lvl e) ++ [e]) -> In x (all_buffered b) \/ x = e).
-  { intros Hx. apply in_app_or in Hx. destruct Hx as [Hx|[ <- |[]]]; [left; eapply buf_get_in_all; exact Hx | right; reflexivity]. }
-  apply all_buffered_buf_set in H. destruct H as [H|H]; [apply G; eapply skipn_in; exact H|].
-  apply all_buffered_buf_set in H. destruct H as [H|H]; [apply G; exact H | left; exact H].
-Qed.
-
-Lemma msg_inner_bufs_in c s e x :
-  In x (all_buffered (s_bufs (fst (fst (msg_inner c s e))))) -> In x (all_buffered (s_bufs s)) \/ x = e.
-Proof.
-  unfold msg_inner. destruct (cmpZ threshold_drop_cmp (e_lvl e) (threshold_of (s_thr s) (e_fac e))); cbn [fst s_bufs];
-    [left; assumption | apply add_event_bufs_in].
-Qed.
-
+(* ---------------------------------------------------------------- what the buffers hold: lib/LogBufProofs.v, section B' *)
 Lemma msg_inner_seq' c s e : s_seq (fst (fst (msg_inner c s e))) = s_seq s.
 Proof. apply msg_inner_seq. Qed.
 
 (* every buffered event carries a number the logger has already handed out *)
-Definition nums_le_seq (s : st) : Prop := forall x, In x (all_buffered (s_bufs s)) -> e_num x <= s_seq s.
+Definition nums_le_seq (s : st) : Prop := forall x, In x (all_buffered (s_bufs s)) -> e_numk x = NumInt /\ e_num x <= s_seq s.
 
-Lemma fallback_bufs_in c s num id rp x :
-  In x (all_buffered (s_bufs (fst (fallback c s num id rp)))) -> In x (all_buffered (s_bufs s)) \/ e_num x = num.
+Lemma fallback_bufs_in c s num id rp k x :
+  In x (all_buffered (s_bufs (fst (fallback c s num id rp k)))) -> In x (all_buffered (s_bufs s)) \/ (e_num x = num /\ e_numk x = k).
 Proof.
   unfold fallback. destruct rp; [|left; assumption].
   destruct (msg_inner c s _) as [[s2 r2] n2] eqn:E. cbn [fst]. intros H.
-  assert (H' : In x (all_buffered (s_bufs (fst (fst (msg_inner c s (mkEv num FAC_INTERNAL fallback_level true (fallback_id id)))))))) by (rewrite E; exact H).
-  apply msg_inner_bufs_in in H'. destruct H' as [H'| -> ]; [left; exact H' | right; reflexivity].
+  assert (H' : In x (all_buffered (s_bufs (fst (fst (msg_inner c s (mkEv num FAC_INTERNAL fallback_level true (fallback_id id) k))))))) by (rewrite E; exact H).
+  apply msg_inner_bufs_in in H'. destruct H' as [H'| -> ]; [left; exact H' | right; split; reflexivity].
 Qed.
 
 Lemma end_of_call_bufs s n : s_bufs (end_of_call s n) = s_bufs s.
@@ -130,25 +75,26 @@ Proof.
   intros Ha Hi. destruct o as [numo fac lvl ok rp id | rp id | f l n | f l | ]; cbn [step].
   - destruct numo as [n|]; [destruct Ha|]. rewrite next_num_spec.
     set (s0 := mkSt (s_seq s + 1) (s_sizes s) (s_thr s) (s_bufs s) (s_inc s)).
-    set (e := mkEv (s_seq s + 1) fac lvl ok id).
+    change (kind_of None) with NumInt.
+    set (e := mkEv (s_seq s + 1) fac lvl ok id NumInt).
     pose proof (msg_inner_bufs_in c s0 e) as B1. pose proof (msg_inner_seq c s0 e) as Q1.
     destruct (msg_inner c s0 e) as [[s1 raised] n1]. cbn [fst] in B1, Q1.
-    assert (I1 : forall x, In x (all_buffered (s_bufs s1)) -> e_num x <= s_seq s + 1).
-    { intros x Hx. destruct (B1 x Hx) as [H| -> ]; [specialize (Hi x H); lia | cbn; lia]. }
+    assert (I1 : forall x, In x (all_buffered (s_bufs s1)) -> e_numk x = NumInt /\ e_num x <= s_seq s + 1).
+    { intros x Hx. destruct (B1 x Hx) as [H| -> ]; [specialize (Hi x H); split; [apply Hi | lia] | cbn; split; [reflexivity | lia]]. }
     destruct raised; [destruct msg_catch_all|].
-    + pose proof (fallback_bufs_in c s1 (s_seq s + 1) id rp) as B2. pose proof (fallback_seq c s1 (s_seq s + 1) id rp) as Q2.
-      destruct (fallback c s1 (s_seq s + 1) id rp) as [s2 n2]. cbn [fst] in *. intros x Hx.
+    + pose proof (fallback_bufs_in c s1 (s_seq s + 1) id rp NumInt) as B2. pose proof (fallback_seq c s1 (s_seq s + 1) id rp NumInt) as Q2.
+      destruct (fallback c s1 (s_seq s + 1) id rp NumInt) as [s2 n2]. cbn [fst] in *. intros x Hx.
       rewrite end_of_call_bufs in Hx. rewrite end_of_call_seq, Q2, Q1. cbn [s_seq s0].
-      destruct (B2 x Hx) as [H|H]; [apply I1; exact H | lia].
+      destruct (B2 x Hx) as [H|[H H']]; [apply I1; exact H | split; [exact H' | lia]].
     + cbn [fst]. intros x Hx. rewrite end_of_call_bufs in Hx. rewrite end_of_call_seq, Q1. apply I1. exact Hx.
     + cbn [fst]. intros x Hx. rewrite end_of_call_bufs in Hx. rewrite end_of_call_seq, Q1. apply I1. exact Hx.
   - rewrite next_num_spec. set (s0 := mkSt (s_seq s + 1) (s_sizes s) (s_thr s) (s_bufs s) (s_inc s)).
     destruct msg_catch_all.
-    + pose proof (fallback_bufs_in c s0 (s_seq s + 1) id rp) as B2. pose proof (fallback_seq c s0 (s_seq s + 1) id rp) as Q2.
-      destruct (fallback c s0 (s_seq s + 1) id rp) as [s2 n2]. cbn [fst] in *. intros x Hx.
+    + pose proof (fallback_bufs_in c s0 (s_seq s + 1) id rp NumInt) as B2. pose proof (fallback_seq c s0 (s_seq s + 1) id rp NumInt) as Q2.
+      destruct (fallback c s0 (s_seq s + 1) id rp NumInt) as [s2 n2]. cbn [fst] in *. intros x Hx.
       rewrite end_of_call_bufs in Hx. rewrite end_of_call_seq, Q2. cbn [s_seq s0].
-      destruct (B2 x Hx) as [H|H]; [specialize (Hi x H); lia | lia].
-    + cbn [fst]. intros x Hx. cbn in Hx. specialize (Hi x Hx). cbn [s_seq s0]. lia.
+      destruct (B2 x Hx) as [H|[H H']]; [specialize (Hi x H); split; [apply Hi | lia] | split; [exact H' | lia]].
+    + cbn [fst]. intros x Hx. cbn in Hx. specialize (Hi x Hx). cbn [s_seq s0]. split; [apply Hi | lia].
   - exact Hi.
   - exact Hi.
   - destruct (i_rep (s_inc s)) as [r|]; [destruct (r_timer r)|]; exact Hi.
@@ -223,14 +169,22 @@ Proof.
   destruct (sub_run_inv maxq maxfl ops sub_init Hq (sub_init_inv maxq maxfl Hq Hf)) as (_ & H2 & H3 & H4 & _). lia.
 Qed.
 
+Theorem subscriber_window_real ops :
+  let s := sub_run MAX_QUEUE_SIZE MAX_IN_FLIGHT ops in 0 <= q_outstanding s <= q_inflight s /\ q_inflight s <= MAX_IN_FLIGHT.
+Proof. destruct real_limits_nonneg. apply subscriber_window; assumption. Qed.
+
 (* ---------------------------------------------------------------- end to end *)
+Lemma nums_le_nohost s : nums_le_seq s -> nohost (s_bufs s).
+Proof. intros H. apply nohost_in. intros x Hx. destruct (H x Hx) as [K _]. unfold is_hostile. rewrite K. reflexivity. Qed.
+
 Theorem subscriber_sees_ordered c pre ops sops catch_up maxq maxfl :
   0 <= maxq -> 0 <= maxfl -> Forall auto_only pre -> Forall auto_only ops ->
   let s0 := fst (run c init pre) in
   sends_of sops = map e_num (run_sends c s0 ops) ->
-  let q0 := fst (sub_subscribe catch_up (s_bufs s0)) in
-  let direct := snd (sub_subscribe catch_up (s_bufs s0)) in
+  let q0 := fst (fst (sub_subscribe catch_up (s_bufs s0))) in
+  let direct := snd (fst (sub_subscribe catch_up (s_bufs s0))) in
   let q := fold_left (sub_step maxq maxfl) sops q0 in
+  snd (sub_subscribe catch_up (s_bufs s0)) = false /\
   StronglySorted Z.le (map e_num direct ++ q_delivered q ++ q_queue q) /\
   Forall (fun n => n <= s_seq s0) (map e_num direct) /\
   Forall (fun n => s_seq s0 < n) (q_delivered q ++ q_queue q) /\
@@ -239,24 +193,32 @@ Theorem subscriber_sees_ordered c pre ops sops catch_up maxq maxfl :
 Proof.
   intros Hq Hf Hpre Hops s0 Hs q0 direct q.
   assert (I0 : nums_le_seq s0) by (apply run_nums_le; [exact Hpre | exact init_nums_le]).
+  pose proof (nums_le_nohost s0 I0) as Hnh.
+  assert (NR : catch_up && sort_raises catchup_sort_key (all_buffered (s_bufs s0)) = false)
+    by (unfold catchup_sort_key, sort_raises; unfold nohost in Hnh; rewrite Hnh; apply andb_false_r).
   destruct (run_sends_sorted c ops s0 Hops) as [S F]. rewrite <- Hs in S, F.
-  assert (Q0 : q0 = sub_init) by (unfold q0, sub_subscribe; destruct catchup; reflexivity).
-  assert (D : direct = if catch_up then sort_by_num (all_buffered (s_bufs s0)) else [])
-    by (unfold direct, sub_subscribe; destruct catchup; reflexivity).
+  assert (Q0 : q0 = sub_init) by (unfold q0, sub_subscribe; destruct catchup; rewrite NR; reflexivity).
+  assert (D : direct = if catch_up then sort_catchup (all_buffered (s_bufs s0)) else [])
+    by (unfold direct, sub_subscribe; destruct catchup; rewrite NR; reflexivity).
   assert (SS : subseq (q_delivered q ++ q_queue q) (sends_of sops)).
   { eapply subseq_trans; [|pose proof (sub_emitted_subseq maxq maxfl sops q0) as E; rewrite Q0 in E; cbn [q_emitted sub_init app] in E; rewrite Q0; exact E].
     pose proof (sub_run_inv maxq maxfl sops sub_init Hq (sub_init_inv maxq maxfl Hq Hf)) as (_ & _ & _ & _ & H5).
     unfold q. rewrite Q0. exact H5. }
+  assert (Din : forall x, In x direct -> In x (all_buffered (s_bufs s0))).
+  { intros x Hx. rewrite D in Hx. destruct catch_up; [|destruct Hx].
+    eapply Permutation_in; [apply sort_catchup_perm | exact Hx]. }
   assert (Dle : Forall (fun n => n <= s_seq s0) (map e_num direct)).
-  { apply Forall_forall. intros n Hn. apply in_map_iff in Hn. destruct Hn as (x & <- & Hx). apply I0.
-    rewrite D in Hx. destruct catch_up; [apply sort_in; exact Hx | destruct Hx]. }
+  { apply Forall_forall. intros n Hn. apply in_map_iff in Hn. destruct Hn as (x & <- & Hx). apply I0. apply Din. exact Hx. }
   assert (Lgt : Forall (fun n => s_seq s0 < n) (q_delivered q ++ q_queue q)) by (eapply subseq_Forall; eassumption).
+  split; [unfold sub_subscribe; destruct catchup; rewrite NR; reflexivity|].
   split; [|split; [exact Dle|split; [exact Lgt|split; [exact SS|]]]].
   - apply sorted_app.
-    + rewrite D. destruct catch_up; [apply sorted_map_num, sort_sorted | constructor].
+    + apply sorted_map_num.
+      * intros x Hx. destruct (I0 x (Din x Hx)) as [K _]. unfold is_int. rewrite K. reflexivity.
+      * rewrite D. destruct catch_up; [apply sort_catchup_sorted | constructor].
     + eapply subseq_sorted; eassumption.
     + intros x y Hx Hy. rewrite Forall_forall in Dle, Lgt. specialize (Dle x Hx). specialize (Lgt y Hy). lia.
-  - intros ->. rewrite D. apply sort_perm.
+  - intros ->. rewrite D. apply sort_catchup_perm.
 Qed.
 
 (* non-vacuity: three buffered events, catch-up, then five live ones (one below the threshold set in between), a slow subscriber *)
@@ -267,8 +229,8 @@ Example ex_sees_ordered :
   let sops := [Send 3; Turn; Send 5; Ack; Send 6; Turn] in
   Forall auto_only pre /\ Forall auto_only ops /\
   sends_of sops = map e_num (run_sends c (fst (run c init pre)) ops) /\
-  let q := fold_left (sub_step 2 1) sops (fst (sub_subscribe true (s_bufs (fst (run c init pre))))) in
-  map e_num (snd (sub_subscribe true (s_bufs (fst (run c init pre))))) = [0; 1; 2] /\ q_delivered q = [3; 5] /\ q_queue q = [6].
+  let q := fold_left (sub_step 2 1) sops (fst (fst (sub_subscribe true (s_bufs (fst (run c init pre)))))) in
+  map e_num (snd (fst (sub_subscribe true (s_bufs (fst (run c init pre)))))) = [0; 1; 2] /\ q_delivered q = [3; 5] /\ q_queue q = [6].
 Proof.
   cbv zeta. split; [repeat constructor|]. split; [repeat constructor|]. split; [vm_compute; reflexivity|].
   split; [vm_compute; reflexivity|]. split; vm_compute; reflexivity.
